@@ -1,0 +1,13 @@
+//go:build verif
+
+package fs
+
+// VerifYield, when set, is called between the system calls of lock file acquisition and release.
+// The argument identifies the caller (the lock file path) and the point.
+var VerifYield func(path, point string)
+
+func verifYield(path, point string) {
+	if f := VerifYield; f != nil {
+		f(path, point)
+	}
+}
